@@ -51,20 +51,20 @@ type Env struct {
 	C        *Choices
 	Stats    Stats
 
-	log     []string
-	sigA    uint64 // signature of the run's shape (ops/faults), for distinct counting
-	sigB    uint64 // signature of the schedule
-	states  map[uint64]struct{}
-	sample  []string
-	logOn   bool
-	failed  *Violation
-	panicked *taskPanic
-	overrun  bool
+	log       []string
+	sigA      uint64 // signature of the run's shape (ops/faults), for distinct counting
+	sigB      uint64 // signature of the schedule
+	states    map[uint64]struct{}
+	sample    []string
+	logOn     bool
+	failed    *Violation
+	panicked  *taskPanic
+	overrun   bool
 	contended int
-	deadlock string
-	Sched   *Sched
-	cleanup []func()
-	finally []func()
+	deadlock  string
+	Sched     *Sched
+	cleanup   []func()
+	finally   []func()
 }
 
 func newEnv(prop, scen, tier string, seed uint64, c *Choices, logOn bool) *Env {
